@@ -451,6 +451,24 @@ def numeric_retype_battery():
     return t, seqs
 
 
+def pk_drop_battery():
+    """named PRIMARY KEY (single column / composite) dropped through the public API: `drop_constraint(name, type_='primary')`
+    builds a column-less placeholder; afterwards the table must have no primary key"""
+    def col(n, ty, pk=False):
+        return {"name": n, "ty": ty, "aff": aff_of_token(ty), "nullable": not pk, "default": None, "dval": None, "pk": pk}
+
+    out = []
+    for cols in (["id"], ["id", "a"]):
+        t = {"name": "t", "cols": [col("id", "INTEGER", True), col("a", "VARCHAR(20)", "a" in cols), col("b", "INTEGER")],
+             "pk": {"name": "pk_x", "cols": cols}, "uniques": [], "checks": [], "fks": [], "indexes": [], "stypes": {},
+             "rows": [[{"i": 1}, {"t": "x"}, {"i": 5}], [{"i": 2}, {"t": "y"}, None]]}
+        for ty in ("primary", None):
+            out.append((t, [{"op": "drop_constraint", "name": "pk_x", "type": ty}]))
+        out.append((t, [{"op": "drop_constraint", "name": "pk_x", "type": "primary"},
+                        {"op": "add_unique", "name": "uq_b", "cols": ["b"]}]))
+    return out
+
+
 def ordering_battery(t):
     """fixed add_column position sequences (every branch of _setup_dependencies_for_add_column)"""
     first, last = t["cols"][0]["name"], t["cols"][-1]["name"]
